@@ -187,7 +187,10 @@ class PyEnv:
         k = c[0]
         if k == 'list':
             tab = self.ipt[(c[1], c[2])]
-            return True, ''.join('Chain %s (policy ACCEPT)\n' % ch[0] for ch in tab), ''
+            return True, ''.join(
+                'Chain %s (policy ACCEPT)\n' % ch[0] +
+                ''.join('%s all -- %s\n' % ('' if r[0] == '-' else r[0][2:], ' '.join(r[1])) for r in ch[1])
+                for ch in tab), ''
         if k in ('-N', '-F', '-X', '-I', '-A', '-D'):
             tab = self.ipt[(c[1], c[2])]
             name = c[3]
@@ -900,11 +903,26 @@ def execute(box, case, lean=None, faults=None):
 
         fired = []
 
-        def hook():
-            fired.append(1)
+        def during_actions():
+            if sec['when'] == 'during-rules':
+                # another tool adds rules of its own (e.g. with a UTF-8 comment) to the tables we use
+                r = box.router
+                was = r.foreign
+                r.foreign = True
+                try:
+                    for argv in sec['cmds']:
+                        rc, _, _ = r.run(argv)
+                        assert rc == 0, ('foreign command failed', argv)
+                finally:
+                    r.foreign = was
+                return
             second_instance(box, case.method, sec['port'], 'setup')
             if sec['when'] == 'during-gone':
                 second_instance(box, case.method, sec['port'], 'restore')
+
+        def hook():
+            fired.append(1)
+            during_actions()
         hooks[nread] = hook
     o.exit, o.stdout = run_main(box, case.method, case.chunks, case.started_fails, hooks)
     o.final = py.show()
@@ -930,10 +948,13 @@ def execute(box, case, lean=None, faults=None):
         r2.foreign = True
         for argv in case.prelude:
             r2.run(argv)
-        second_instance(box, case.method, sec['port'], 'setup')
-        if sec['when'] == 'during-gone':
-            second_instance(box, case.method, sec['port'], 'restore')
+        during_actions()
         expected_extra = py2.show()
+        if case.fault_indices():
+            # tear-down faults are judged against the configuration the foreign commands alone produce
+            o.s0 = expected_extra
+            o.s0_pretty = py2.pretty()
+            o.foreign0 = py2.foreign_view(case.ports)
         box.router = router
     o.expected_final = expected_extra if expected_extra is not None else o.s0
     return o
@@ -1008,6 +1029,8 @@ def check_oracle(ctx, box, case, o, full_ncmd=None):
                 key = 'C04:tproxy:setup-fault:teardown-aborts'
             elif setup_fault:
                 key = 'C04:%s:setup-%s:not-undone' % (m, tag)
+            elif case.second and case.second.get('when') == 'during-rules':
+                key = 'C04:%s:foreign-rule-added-during-session:not-undone' % m
             elif case.second:
                 key = 'C04:%s:foreign-instance-disturbed' % m
             else:
@@ -1055,6 +1078,13 @@ def check_oracle(ctx, box, case, o, full_ncmd=None):
 
 # ------------------------------------------------------------------ generation
 
+UTF8 = 'caf\xc3\xa9 \xe2\x9c\x93'      # UTF-8 bytes of "café ✓", one char per byte (argv is bytes to the kernel)
+FOREIGN_DURING = [
+    ['iptables', '-w', '-t', 'nat', '-A', 'OUTPUT', '-j', 'ACCEPT', '-d', '203.0.113.9', '-m', 'comment', '--comment', UTF8],
+    ['iptables', '-w', '-t', 'mangle', '-I', 'OUTPUT', '1', '-j', 'ACCEPT', '-d', '203.0.113.9', '-m', 'comment', '--comment', UTF8],
+    ['ip6tables', '-w', '-t', 'nat', '-I', 'PREROUTING', '1', '-j', 'ACCEPT', '-m', 'comment', '--comment', UTF8],
+    ['ip6tables', '-w', '-t', 'mangle', '-A', 'PREROUTING', '-j', 'ACCEPT', '-m', 'comment', '--comment', UTF8],
+]
 FOREIGN_PRELUDE = [
     ['iptables', '-w', '-t', 'nat', '-N', 'DOCKER'],
     ['iptables', '-w', '-t', 'nat', '-A', 'DOCKER', '-j', 'RETURN', '-i', 'docker0'],
@@ -1066,6 +1096,8 @@ FOREIGN_PRELUDE = [
     ['ip6tables', '-w', '-t', 'nat', '-N', 'sshuttle-x'],
     ['ip6tables', '-w', '-t', 'nat', '-A', 'OUTPUT', '-j', 'sshuttle-x'],
     ['ip6tables', '-w', '-t', 'mangle', '-A', 'OUTPUT', '-j', 'ACCEPT'],
+    ['iptables', '-w', '-t', 'nat', '-A', 'POSTROUTING', '-j', 'MASQUERADE', '-m', 'comment', '--comment', 'r\xc3\xa9seau'],
+    ['iptables', '-w', '-t', 'mangle', '-A', 'FORWARD', '-j', 'ACCEPT', '-m', 'comment', '--comment', 'r\xc3\xa9seau'],
     ['nft', 'add table', 'inet', 'filter', ''],
     ['nft', 'add chain', 'inet', 'filter', 'input', '{ type filter hook input priority 0; }'],
     ['nft', 'add rule', 'inet', 'filter', 'input', 'ct state established accept'],
@@ -1206,6 +1238,13 @@ def run_plan(ctx, box, lean, plan, budget):
         q = 23456
         for when in ('before', 'during', 'during-gone'):
             do(mk_case(plan, lines, prelude=FOREIGN_PRELUDE[:4], second=dict(port=q, when=when)))
+        # another tool adds rules with non-ASCII bytes (UTF-8 comments) to our tables while the session is up:
+        # every later `-nL` listing read by ipt_chain_exists contains them
+        dr = dict(port=q, when='during-rules', cmds=FOREIGN_DURING)
+        do(mk_case(plan, lines, prelude=FOREIGN_PRELUDE[:4], second=dr))
+        td = list(range(o0.undo_at if o0.undo_at is not None else o0.ncmd, o0.ncmd))
+        for k in (td if ctx.thorough else td[::3]):
+            do(mk_case(plan, lines, faults=[k], second=dr))
         # faults with foreign configuration and a second instance present
         for k in (ks if ctx.thorough else ks[::5]):
             do(mk_case(plan, lines, faults=[k], prelude=FOREIGN_PRELUDE, second=dict(port=q, when='before')))
